@@ -256,7 +256,7 @@ STORE_NOTE = ('Trusted: Lean kernel (axioms propext, Classical.choice, Quot.soun
 PROPS['C01'] = dict(lean=['Mkdb.Props.C01'], facts=STORE_FACTS, runs=[dict(cmd='db', proto='db', args=['c01'])],
     sig_filter=r'db:(contents-differ:live|schema-differs:live|row-ids-not-increasing:live|row-id:live|panic:live|hang:live|select-failed:live|valid-statement-refused:live)',
     
-    claim='Proof (partial): C01_step / C01_history - for every history of tree operations of any length (inserts with whatever leaf splits, internal splits at any depth and root growths they cause, value changes, deletions) what a scan of the tree sees is exactly the plain list the history implies: accepted inserts appended in order, changed values in place, tombstones set; C01_select_sees_live_rows; C01_ids_strictly_increasing - row ids strictly increasing hence unique; C01_no_resurrection - a deleted row stays deleted through every later operation. C01_forest_* - trees sharing one file never share a page and an operation on one leaves the others alone. These are about the levels model of storage/btree.go (Mkdb.Tree); C01_heap_history / C01_heap_history_scan carry them to the heap model that is compared with the code: for every store whose page heap holds a well-formed tree and every history of inserts, value changes and deletions, the insertKeyHeap / findLeaf+updateCellAt / tombstone code of the heap model itself ends holding exactly the levels tree and scanRight returns its live cells (proved refinement, about 3500 lines, any depth up to the 64-level fuel). C01_statement_insert: at statement level, under the catalog invariant Cat (page table, sys_schema and user tables held as disjoint well-formed trees, page-table rows naming exactly them, row ids below the counter), RelationService.Insert finds the table through the catalog, appends the row under the next row id with whatever splits, re-points the catalog exactly when the root moved, logs exactly the records the model logs, leaves every other table alone and re-establishes Cat; C01_statement_unknown_table. Not covered by a theorem: UPDATE / DELETE / CREATE TABLE at statement level (tree level only), multi-row statements as loops of these, the row codec (C08) and the page codec (C12). Tie: random DDL/DML histories over up to 12 tables through RelationService on real files, with page flushes and reloads at random points and histories deep enough for internal-node splits; after every statement the outcome, at intervals SELECT * of every table, the catalog, and the complete page heap are compared with the heap model (page by page: cells, flags, sibling links, LSNs, dirty bits, header), and the judge compares every table with the in-memory spec of the statements (Spec/Tables.lean) and checks row ids.',
+    claim='Proof (partial): C01_step / C01_history - for every history of tree operations of any length (inserts with whatever leaf splits, internal splits at any depth and root growths they cause, value changes, deletions) what a scan of the tree sees is exactly the plain list the history implies: accepted inserts appended in order, changed values in place, tombstones set; C01_select_sees_live_rows; C01_ids_strictly_increasing - row ids strictly increasing hence unique; C01_no_resurrection - a deleted row stays deleted through every later operation. C01_forest_* - trees sharing one file never share a page and an operation on one leaves the others alone. These are about the levels model of storage/btree.go (Mkdb.Tree); C01_heap_history / C01_heap_history_scan carry them to the heap model that is compared with the code: for every store whose page heap holds a well-formed tree and every history of inserts, value changes and deletions, the insertKeyHeap / findLeaf+updateCellAt / tombstone code of the heap model itself ends holding exactly the levels tree and scanRight returns its live cells (proved refinement, about 3500 lines, any depth up to the 64-level fuel). C01_statement_insert: at statement level, under the catalog invariant Cat (page table, sys_schema and user tables held as disjoint well-formed trees, page-table rows naming exactly them, row ids below the counter), RelationService.Insert finds the table through the catalog, appends the row under the next row id with whatever splits, re-points the catalog exactly when the root moved, logs exactly the records the model logs, leaves every other table alone and re-establishes Cat; C01_statement_unknown_table. C01_statement_select / _delete / _update: likewise Fetch returns the decoded live rows in scan order with the declared columns, MarkDeleted and Update change exactly the one row, log exactly one record and touch no other page or table, and refusals change nothing. Not covered by a theorem: CREATE TABLE at statement level, multi-row statements as loops of these (engine layer), the row codec (C08) and the page codec (C12). Tie: random DDL/DML histories over up to 12 tables through RelationService on real files, with page flushes and reloads at random points and histories deep enough for internal-node splits; after every statement the outcome, at intervals SELECT * of every table, the catalog, and the complete page heap are compared with the heap model (page by page: cells, flags, sibling links, LSNs, dirty bits, header), and the judge compares every table with the in-memory spec of the statements (Spec/Tables.lean) and checks row ids.',
     note=STORE_NOTE,
     rule='1 deep history (1400 rows in one table, ~310 leaves, internal split; thorough also 2900 rows) + 12 (thorough 96) histories of 5-60 statements (thorough: every 8th has 260 statements over up to 12 tables of up to 11 columns), multi-row inserts of 1-12 rows, values up to the 400-byte row limit, 12% updates, 18% deletes, flush 10% / reload 5% per statement. Non-trivial: a history in which some table split a leaf; distinct by operation text.',
     assumptions=['row ids only ever arrive in ascending order (they come from the shared counter or from log replay)'],
@@ -264,7 +264,7 @@ PROPS['C01'] = dict(lean=['Mkdb.Props.C01'], facts=STORE_FACTS, runs=[dict(cmd='
 PROPS['C02'] = dict(lean=['Mkdb.Props.C02'], facts=STORE_FACTS, runs=[dict(cmd='db', proto='db', args=['c02']), dict(cmd='wal', proto='wal')],
     sig_filter=r'wal:.*|db:(contents-differ:after-recovery|recovery-failed:.*|valid-statement-refused:after-recovery|row-id:after-recovery|row-ids-not-increasing:after-recovery|schema-differs:after-recovery|panic:after-recovery|hang:after-recovery|select-failed:after-recovery)',
     
-    claim='Proof (partial): C02_recovery_reconstructs / C02_recovery_idempotent / C02_clean_shutdown - for every log of page-local records with increasing LSNs, every initial state and EVERY placement of page flushes (each page of the data file is the cached page as of an arbitrary earlier moment), the redo rule of WALBatch.replay (skip a record whose LSN is not newer than the page) reproduces exactly the state the acknowledged statements had built, and replaying again changes nothing; C02_log_roundtrip - the bytes wal.flush appends are read back by wal.read as exactly the records written (byte-level model). C02_concrete_replay_is_the_redo_rule / C02_concrete_recovery_reconstructs: on UPDATE and DELETE records the concrete recovery model (Engine.replayAll, the one compared with the implementation) is proved to be that redo rule page by page, so the schedule theorem is a theorem about it. Not covered by a theorem: records that touch several pages (tree inserts that split, catalog re-pointing after a root move, page allocation) and the header counters (row id, LSN) - for those the concrete model Mkdb.Engine.recover (same LSN rule, same tree code as C01) is compared with the implementation. Tie: per case a random DDL/DML history through RelationService with the flush timer replaced by explicit flushes at random points (never / sometimes / always), a crash (cache dropped, files kept) after random statements, the real InitStorage in a child process, optionally a second recovery, then SELECT * of every table, heap dump and further statements; the model must produce the same heap, log and outcomes, the judge compares every table with the in-memory spec of the acknowledged statements and checks row ids stay unique and increasing.',
+    claim='Proof (partial): C02_recovery_reconstructs / C02_recovery_idempotent / C02_clean_shutdown - for every log of page-local records with increasing LSNs, every initial state and EVERY placement of page flushes (each page of the data file is the cached page as of an arbitrary earlier moment), the redo rule of WALBatch.replay (skip a record whose LSN is not newer than the page) reproduces exactly the state the acknowledged statements had built, and replaying again changes nothing; C02_log_roundtrip - the bytes wal.flush appends are read back by wal.read as exactly the records written (byte-level model). C02_concrete_replay_is_the_redo_rule / C02_concrete_recovery_reconstructs: on UPDATE and DELETE records the concrete recovery model (Engine.replayAll, the one compared with the implementation) is proved to be that redo rule page by page, so the schedule theorem is a theorem about it. C02_redo_of_unflushed_inserts: for INSERT statements (tree inserts with splits, root moves, catalog re-pointing) replaying the logged records on the store before them reproduces the live tables, catalog, row-id counter and allocation frontier; C02_recovery_of_a_flushed_database_changes_nothing: already-applied records (page LSN not older, or key present) are skipped or tolerated. Not covered by a theorem: records that touch several pages (tree inserts that split, catalog re-pointing after a root move, page allocation) and the header counters (row id, LSN) - for those the concrete model Mkdb.Engine.recover (same LSN rule, same tree code as C01) is compared with the implementation. Tie: per case a random DDL/DML history through RelationService with the flush timer replaced by explicit flushes at random points (never / sometimes / always), a crash (cache dropped, files kept) after random statements, the real InitStorage in a child process, optionally a second recovery, then SELECT * of every table, heap dump and further statements; the model must produce the same heap, log and outcomes, the judge compares every table with the in-memory spec of the acknowledged statements and checks row ids stay unique and increasing.',
     note='Trusted: Lean kernel (axioms propext, Classical.choice, Quot.sound only), the hand-written models, the harness and hooks, the OS file system behaving as a byte array per file with fsync making earlier writes durable. Theorems are about the models; the code is covered through the correspondence and the judge, which are bounded.',
     rule='12 (thorough 96) histories of 5-40 statements over up to 4 tables with flush probability in {0,15,40,100}%, crash probability in {10,25,50}% per statement, failing statements mixed in; wal codec: 40 (thorough 320) record lists, every cut position of short logs, random cuts and damaged bytes otherwise. Non-trivial: a history with at least one crash after an unflushed change; distinct by operation text.',
     assumptions=['a crash loses the page cache and nothing else: log records are fsynced before a statement returns (forceSync) and the data file is only written by flushPages', 'InitStorage runs alone (no concurrent session)'],
